@@ -185,7 +185,7 @@ def body_slash(kind: int, u: str) -> bool:
             from pygopherd.protocols import gemini
 
             pre = "gemini://srv.example"
-            gemini.urllib = hx.ns(parse=hx.ns(urlparse=lambda x: hx.ns(path=x[len(pre):], query=""), unquote=urllib.parse.unquote, quote=urllib.parse.quote))
+            gemini.urllib = hx.ns(parse=hx.ns(urlparse=lambda x: hx.ns(path=x[len(pre):], query=""), unquote=urllib.parse.unquote, quote=urllib.parse.quote, unquote_plus=urllib.parse.unquote_plus, urlsplit=urllib.parse.urlsplit))
         for path in ("/" + u, "/" + u + "/"):
             req, tls = rl.client_request(kind, ("/wap" + path) if kind == 3 else path)
             seen, pname = rl.follow(kind, req, tls, cfg)
@@ -267,7 +267,7 @@ def body_search(kind: int, s: str) -> bool:
             req, tls = rl.client_request(kind, "/wap/d" if kind == 3 else "/d", s)
             if kind == 4:
                 # urlparse realizes: contract stub returning the raw components
-                gemini.urllib = hx.ns(parse=hx.ns(urlparse=lambda u: hx.ns(path="/d", query=s), unquote=unquote, quote=urllib.parse.quote))
+                gemini.urllib = hx.ns(parse=hx.ns(urlparse=lambda u: hx.ns(path="/d", query=s), unquote=unquote, quote=urllib.parse.quote, unquote_plus=urllib.parse.unquote_plus, urlsplit=urllib.parse.urlsplit))
             try:
                 seen, pname = rl.follow(kind, req, tls, cfg)
             finally:
